@@ -80,7 +80,7 @@ def plan(ctx):
     if quick:
         shape = {'NSETUP': 3, 'SETUP_SHAPE': '{0,1,3}', 'SETUP_ONE_READ': 1}
         shape_txt = 'require(a1); bump(k1); discard() or bump(k2)'
-        op_cfgs = [(2, 2, OPS), (1, 2, ('require', 'empty', 'discard', 'rewind')), (4, 2, ('require', 'discard'))]
+        op_cfgs = [(2, 2, OPS), (2, 3, ('discard',)), (1, 2, ('require', 'empty', 'rewind')), (1, 3, ('discard',)), (4, 2, ('require', 'discard'))]
         rule_cfgs = [(2, 2, RULES)]
     else:
         shape = {'NSETUP': 5, 'SETUP_SHAPE': '{0,1,3,0,1}', 'SETUP_ONE_READ': 1}
